@@ -81,3 +81,14 @@ claim(
     "vector A^T S^-1 (y - A m) (that product is how the result is documented to be formed); kappa > 1e9 inconclusive.",
     "Hypothesis PBT with closed-form reference (mpmath) + numerical differentiation",
 )
+claim(
+    "C18",
+    "Generated-input search in three layers: (a) acquisition values with a stub regressor so that mean, sd and incumbent are free "
+    "(z from -1e6 to 1e6, sd over 18 decades): log-EI and EI against 50-digit mpmath E[max(f-y_max,0)] on both branches, continuity "
+    "at z=-3, UCB, max-variance, opt_func=-objective; (b) opt_func_gradient on real regressors (d=1..3, z on both sides of -3) "
+    "against opt_func and Richardson-controlled stencils with a cancellation-aware round-off floor; (c) model-based histories of "
+    "GpOptimiser (propose bfgs/diffev, add with x as scalar/1-D/(1,d)/list): proposals inside the box, data = initial + added in "
+    "order, incumbent = max(y), every caller-owned array unchanged in values/shape/dtype.",
+    "|z| <= 1e6; stencil cases whose round-off floor exceeds 1e-3 of the gradient are inconclusive; histories use a fixed smooth objective.",
+    "Hypothesis PBT: high-precision reference, numerical differentiation, model-based histories",
+)
